@@ -9,7 +9,7 @@ ID = 'C01'
 BUDGET = {'quick': 30000, 'thorough': 1500000}
 WALL = {'quick': 100, 'thorough': 1500}
 CHUNK = 60
-REQUIRED_PROBES = ['route_len_1', 'route_len_2', 'route_len_3', 'with_buffer', 'without_buffer', 'padded_block', 'extent_eq_procs', 'leading_extent_1']
+REQUIRED_PROBES = ['route_len_1', 'route_len_2', 'route_len_3', 'with_buffer', 'without_buffer', 'padded_block', 'extent_eq_procs', 'leading_extent_1', 'arrays_reused_across_transposes']
 RULE = ('case = (array rank 2-4, global shape, process grid incl. leading extent 1, 1-6 dimension '
         'orderings, payload dtype, list of (source, destination, buffer?) transposes, schedule/fault '
         'configuration), all drawn from the case seed; every rank builds the LayoutHandler and performs '
@@ -37,7 +37,7 @@ def gen(rng, tier, idx):
     rng.shuffle(ops)
     return dict(P=int(np.prod(nprocs)), nprocs=nprocs, shape=shape, layouts=layouts,
                 dtype=rng.choice(['float64', 'float64', 'complex128', 'int64']),
-                ops=ops, extra=rng.choice([0, 0, 0, 1, 5]),
+                ops=ops, extra=rng.choice([0, 0, 0, 1, 5]), reuse=rng.random() < 0.3,
                 sched=_sched(rng))
 
 
@@ -75,13 +75,22 @@ def do_transposes(manager, case, world, rank, exact_buffers=False):
     dt = cm.np_dtype(case['dtype'])
     bsize = int(manager.bufferSize)
     extra = 0 if exact_buffers else int(case.get('extra', 0))
+    reuse = bool(case.get('reuse'))
+    if reuse:
+        # the same three arrays through the whole sequence (as Grid does): whatever an earlier transpose
+        # left behind is still there, instead of fresh poisoned memory
+        arrs = [cm.poison(np.empty(bsize + extra, dtype=dt)) for _ in range(3)]
     for step, (src, dst, use_buf) in enumerate(case['ops']):
         ls = manager.getLayout(src)
         ld = manager.getLayout(dst)
         G = cm.global_array(case['shape'], case['dtype'], salt=step)
-        source = cm.poison(np.empty(bsize + extra, dtype=dt))
-        dest = cm.poison(np.empty(bsize + extra, dtype=dt))
-        buf = cm.poison(np.empty(bsize + extra, dtype=dt)) if use_buf else None
+        if reuse:
+            source, dest, third = arrs[step % 3], arrs[(step + 1) % 3], arrs[(step + 2) % 3]
+            buf = third if use_buf else None
+        else:
+            source = cm.poison(np.empty(bsize + extra, dtype=dt))
+            dest = cm.poison(np.empty(bsize + extra, dtype=dt))
+            buf = cm.poison(np.empty(bsize + extra, dtype=dt)) if use_buf else None
         want_src = cm.local(G, ls)
         source[:ls.size] = want_src.ravel()
         manager.transpose(source, dest, src, dst, buf)
@@ -147,6 +156,8 @@ def run(case, tape=None):
                     probes['extent_eq_procs'] = 1
         if n_a2a == 0 and P > 1:
             probes['local_only'] = 1
+        if case.get('reuse'):
+            probes['arrays_reused_across_transposes'] = 1
         return dict(nontrivial=(P > 1 and n_a2a > 0), probes=probes)
 
     return execute(ID, P, case['sched'], tape, rank_fn, post)
